@@ -45,7 +45,11 @@ def array_support(func):
                 vals.append(iterator(v, *args[1:], **kwargs))
 
             if isinstance(args[0], np.ndarray):
-                vals = np.array(vals)
+                if args[0].dtype == object and not any(isinstance(v, str) for v in vals):
+                    # python integers (extended precision) stay python integers: numpy would choose uint64 or float64
+                    vals = np.array(vals, dtype=object)
+                else:
+                    vals = np.array(vals)
             return vals
         else:
             return func(*args, **kwargs)
